@@ -26,6 +26,7 @@ type C09Params struct {
 	Pos        int         `json:"pos"`        // fail after this many envelopes were handed to the client's Read
 	WriteFails bool        `json:"write_fails"` // the write side fails too
 	ErrKind    int         `json:"err_kind"`    // which error the failing Read reports (see InjectedErr)
+	Side       SideOpts    `json:"side"`        // interceptors / stats handlers (family c20.clientfail)
 }
 
 func genC09(g *rand.Rand, tier string) any {
@@ -79,8 +80,9 @@ func execC09(e *Env, pp any) {
 			sim.Add(c)
 		}
 	}
-	srv := sim.NewServer()
-	net := Build(e, TopoSpec{Kind: TopoDirect, Clients: 1, Links: p.Links}, srv, nil)
+	obs := newSideObs(e, p.Side)
+	srv := sim.NewServer(obs.serverOpts()...)
+	net := Build(e, TopoSpec{Kind: TopoDirect, Clients: 1, Links: p.Links}, srv, obs.clientOpts)
 	cin, cout := net.CEnds[0].In, net.CEnds[0].Out
 	// which calls had their complete response handed to the client's Read
 	complete := map[int]bool{}
@@ -216,6 +218,12 @@ func execC09(e *Env, pp any) {
 	checkStreamsClientSide(run, prop)
 	sim.Order = saved
 	_ = nv
+	// C20, outcome "transport failure": whatever happened to the connection, each
+	// client interceptor ran once per RPC and each client stats handler saw one
+	// Begin and one End whose error is nil exactly when the RPC succeeded
+	if s := p.Side; s.CliUnary+s.CliStream+s.CliStats > 0 {
+		checkSide(&MixRun{E: e, Sim: sim, Net: net, Obs: obs, P: &MixParams{}, ClientSideOnly: true})
+	}
 }
 
 // stepOnce performs exactly one scheduling decision (if any is enabled).
@@ -1100,6 +1108,12 @@ func execC14(e *Env, pp any) {
 func init() {
 	Register(&Family{Name: "c09.clientfail", ShrinkKeys: []string{"calls", "late", "pos"}, Props: []string{"C09"}, New: func() any { return &C09Params{} }, Gen: genC09, Exec: execC09,
 		Faulty: true, FaultKinds: []string{"link.readFail", "link.writeFail"}})
+	Register(&Family{Name: "c20.clientfail", ShrinkKeys: []string{"calls", "late", "pos"}, Props: []string{"C20"}, New: func() any { return &C09Params{} }, Exec: execC09,
+		Gen: func(g *rand.Rand, tier string) any {
+			p := genC09(g, tier).(*C09Params)
+			p.Side = SideOpts{CliUnary: g.IntN(4), CliStream: g.IntN(4), CliStats: 1 + g.IntN(3)}
+			return p
+		}, Faulty: true, FaultKinds: []string{"link.readFail", "link.writeFail"}})
 	Register(&Family{Name: "c10.shutdown", ShrinkKeys: []string{"calls", "pos"}, Props: []string{"C10"}, New: func() any { return &C10Params{} }, Gen: genC10, Exec: execC10,
 		Faulty: true, FaultKinds: []string{"link.readFail", "link.writeFail", "server.stop", "link.stall"}})
 	Register(&Family{Name: "c11.abandon", ShrinkKeys: []string{"others"}, Props: []string{"C11"}, New: func() any { return &C11Params{} }, Gen: genC11, Exec: execC11,
